@@ -69,3 +69,19 @@ Print Assumptions C07_tree_minus_aff.
 Print Assumptions C07_aff_minus_tree.
 Print Assumptions C07_tree_plus_aff.
 Print Assumptions C07_wf.
+
+(* ---- the operators as the code runs them: with on-the-fly pruning (impl_ops.rs goes through the pruning generic
+   composition).  For every LP oracle whose Infeasible answers exclude x and every cached state of the left operand
+   whose Infeasible marks exclude x (C05_history: true of every tree a history produces), the pruned result leads x to
+   the operator applied to the two terminals reached ---- *)
+From AT Require Import Cells Abs Cache Elim ElimEval CPrune CPruneEval TermLevel OpsPruned.
+Theorem C07_pruned_operator_terminal : forall o tol fo t L x, osound o x -> bin2 L -> cbin t -> marks_ok x [] t ->
+  cterm (fst (cprune o tol (op_schema fo) L t [] k0)) x =
+  match cterm t x, term L x with Some f, Some g => Some (aop fo f g) | _, _ => None end.
+Proof. exact ops_pruned_term. Qed.
+Theorem C07_pruned_operator_value : forall o tol fo t L x, osound o x -> bin2 L -> cbin t -> marks_ok x [] t ->
+  cev (fst (cprune o tol (op_schema fo) L t [] k0)) x =
+  match cterm t x, term L x with Some f, Some g => Some (apply (aop fo f g) x) | _, _ => None end.
+Proof. exact ops_pruned_value. Qed.
+Print Assumptions C07_pruned_operator_terminal.
+Print Assumptions C07_pruned_operator_value.
